@@ -22,6 +22,7 @@ import (
 	"fmt"
 
 	"github.com/cloudwego/eino/internal/serialization"
+	"github.com/cloudwego/eino/internal/verifhook"
 )
 
 var InterruptAndRerun = errors.New("interrupt and rerun")
@@ -180,7 +181,11 @@ func (c *checkPointer) set(ctx context.Context, id string, cp *checkpoint) error
 
 // convertCheckPoint if value in checkpoint is streamReader, convert it to non-stream
 func (c *checkPointer) convertCheckPoint(cp *checkpoint, isStream bool) (err error) {
+	ckeys, ci := verifhook.SortedKeys(cp.Channels), 0
 	for _, ch := range cp.Channels {
+		if verifhook.On { // simulator: deterministic (sorted) iteration order
+			ch, ci = cp.Channels[ckeys[ci]], ci+1
+		}
 		err = ch.convertValues(func(m map[string]any) error {
 			return c.sc.convertOutputs(isStream, m)
 		})
@@ -199,7 +204,11 @@ func (c *checkPointer) convertCheckPoint(cp *checkpoint, isStream bool) (err err
 
 // convertCheckPoint convert values in checkpoint to streamReader if needed
 func (c *checkPointer) restoreCheckPoint(cp *checkpoint, isStream bool) (err error) {
+	ckeys, ci := verifhook.SortedKeys(cp.Channels), 0
 	for _, ch := range cp.Channels {
+		if verifhook.On {
+			ch, ci = cp.Channels[ckeys[ci]], ci+1
+		}
 		err = ch.convertValues(func(m map[string]any) error {
 			return c.sc.restoreOutputs(isStream, m)
 		})
@@ -247,7 +256,11 @@ func convert(values map[string]any, convPairs map[string]streamConvertPair, isSt
 	if !isStream {
 		return nil
 	}
+	vkeys, vi := verifhook.SortedKeys(values), 0
 	for key, v := range values {
+		if verifhook.On {
+			key, v, vi = vkeys[vi], values[vkeys[vi]], vi+1
+		}
 		convPair, ok := convPairs[key]
 		if !ok {
 			return fmt.Errorf("checkpoint conv stream fail, node[%s] have not been registered", key)
@@ -269,7 +282,11 @@ func restore(values map[string]any, convPairs map[string]streamConvertPair, isSt
 	if !isStream {
 		return nil
 	}
+	vkeys, vi := verifhook.SortedKeys(values), 0
 	for key, v := range values {
+		if verifhook.On {
+			key, v, vi = vkeys[vi], values[vkeys[vi]], vi+1
+		}
 		convPair, ok := convPairs[key]
 		if !ok {
 			return fmt.Errorf("checkpoint restore stream fail, node[%s] have not been registered", key)
